@@ -431,7 +431,8 @@ where
         if let Some(f) = self.aux_fault {
             let d = E::from(f.delta.max(1));
             if f.whole_column {
-                let product = self.desc.aux.as_ref().map(|a| a.cols[f.col].0 != 0).unwrap_or(false);
+                // product columns and the Lagrange kernel column (index = number of regular columns) are scaled
+                let product = self.desc.aux.as_ref().map(|a| f.col >= a.cols.len() || a.cols[f.col].0 != 0).unwrap_or(false);
                 for v in cols[f.col].iter_mut() {
                     if product {
                         *v *= E::ONE + d;
